@@ -64,6 +64,7 @@ func gen(t *rapid.T) Case {
 		if c.Feat.ChunkMin > ceff {
 			ceff = c.Feat.ChunkMin
 		}
+		c.Feat.EnforceMin = c.Feat.ChunkMin > 0 && rapid.Bool().Draw(t, "enforceMin")
 	}
 	if ceff == defChunk {
 		ceff = chunk // lengths stay small; everything fits one chunk
@@ -143,7 +144,7 @@ func gen(t *rapid.T) Case {
 	// registry behaviour
 	c.Feat.MountStatus = rapid.SampledFrom([]int{0, 0, 201, 201, 400, 403, 404, 405, 429}).Draw(t, "mountStatus")
 	c.Feat.Preseed = rapid.IntRange(0, 3).Draw(t, "preseed") == 0
-	c.Feat.LocStyle = rapid.IntRange(0, 5).Draw(t, "locStyle")
+	c.Feat.LocStyle = rapid.IntRange(0, 6).Draw(t, "locStyle")
 	if rapid.IntRange(0, 9).Draw(t, "partial") < 6 {
 		cc := ceff
 		acc := rapid.OneOf(
@@ -160,6 +161,7 @@ func gen(t *rapid.T) Case {
 	}
 	c.Feat.RefuseMono = rapid.IntRange(0, 9).Draw(t, "refuseMono") < 3
 	c.Feat.Early201 = rapid.IntRange(0, 9).Draw(t, "early201") < 2
+	c.Feat.RangeBytes = rapid.IntRange(0, 9).Draw(t, "rangeBytes") < 2
 	c.RetryLimit = rapid.SampledFrom([]int{3, 3, 4, 5}).Draw(t, "retryLimit")
 	nf := rapid.SampledFrom([]int{0, 0, 0, 0, 0, 1, 1, 1, 2, 2}).Draw(t, "nFaults")
 	for i := 0; i < nf; i++ {
